@@ -72,7 +72,9 @@ def run(tier):
                    dict(module="MC_DM.tla", cfg="MC_DM_quick.cfg", workers=4, heap="6g"),
                    dict(module="MC_Aztec.tla", cfg="MC_Aztec.cfg", workers=4, heap="6g"),
                    dict(module="MC_PDF417.tla", cfg="MC_PDF417.cfg", workers=4, heap="6g"),
-                   dict(module="MC_PDFDims.tla", cfg="MC_PDFDims.cfg", workers=4)])
+                   dict(module="MC_PDFDims.tla", cfg="MC_PDFDims.cfg", workers=4),
+                   dict(module="MC_AztecSel.tla", cfg="MC_AztecSel_quick.cfg" if quick else "MC_AztecSel_thorough.cfg", workers=6, timeout=3000, heap="4g"),
+                   dict(module="MC_AztecSel.tla", cfg="MC_AztecSel_noexact.cfg", workers=2, expect_violation="SelOK")])
     chk.cov["apalache_PDFRowsLemma"] = vlib.apalache(chk.work, "sym/PDFRowsLemma.tla")
     drive = vlib.build_harness(chk.work)
     jobs = c13_jobs(chk.rng, quick)
